@@ -314,7 +314,66 @@ class _ProdDir(object):
         return self.output
 
 
+class _Producer(object):
+    """A producer ComponentState as far as stageIn() is concerned: isAlive() and a real rx notifyFinished subject."""
+    def __init__(self, name, alive):
+        import reactivex.subject
+        self.name = name
+        self.alive = alive
+        self.notifyFinished = reactivex.subject.Subject()
+        self.specification = types.SimpleNamespace(reference='stage1.' + name)
+
+    def isAlive(self):
+        return self.alive
+
+
+def body_stagein(ctx):
+    """The real ComponentState.stageIn() subscription: the engine is told that all producers finished exactly once,
+    after the last live producer finished - immediately when none is alive at stage-in."""
+    import reactivex.scheduler
+    import experiment.runtime.workflow as workflow
+    from harness.rt_stubs import HComp
+    n = ctx.choice('producers', [0, 1, 2, 3])
+    prods = [_Producer('p%d' % i, ctx.flag('alive_at_stagein:p%d' % i)) for i in range(n)]
+    job = FakeJob(1, 'obs', {'isRepeat': True, 'repeatRetries': 0, 'repeatInterval': 10})
+    job.flowir_description = {'variables': {}}
+    w = World(ctx, 1)
+    eng = HRep(job, w)
+    notified = []
+    eng.notify_all_producers_finished = lambda: notified.append(len(notified))
+
+    class Obs(HComp):
+        producers = property(lambda self: list(prods))
+    comp = Obs(job, eng)
+    saved = workflow.ComponentState.componentScheduler
+    workflow.ComponentState.componentScheduler = reactivex.scheduler.ImmediateScheduler()
+    try:
+        workflow.ComponentState.stageIn(comp, stageData=False)
+        live = [p for p in prods if p.alive]
+        detail = {'producers': [(p.name, p.alive) for p in prods]}
+        if not live:
+            ctx.witness('no_live_producer_at_stagein')
+            ctx.check(notified == [0], 'an observer whose producers are all finished at stage-in is notified at once', (notified, detail))
+            return ('immediate', n)
+        ctx.check(notified == [], 'no notification while a producer is still alive', (notified, detail))
+        order = list(live)
+        while order:
+            p = order.pop(ctx.choice('next_finished:%d' % len(order), list(range(len(order)))) if len(order) > 1 else 0)
+            p.alive = False
+            p.notifyFinished.on_next(({'isAlive': False, 'state': 'finished'}, p))
+            p.notifyFinished.on_completed()
+            if order:
+                ctx.check(notified == [], 'no notification before the last live producer finished', (notified, detail, p.name))
+        ctx.witness('notified_after_last_producer')
+        ctx.check(notified == [0], 'the observer is notified exactly once after its last producer finished', (notified, detail))
+        return ('after-last', n, len(live))
+    finally:
+        workflow.ComponentState.componentScheduler = saved
+
+
 def factory(param):
+    if param.get('name') == 'stage-in':
+        return body_stagein
     return make_body(param['max_switch'])
 
 
@@ -326,7 +385,7 @@ def main(tier, seed, only=None):
     rep = Report('C13', tier, seed)
     max_switch = 8 if tier == 'quick' else 11
     max_paths = 350000 if tier == 'quick' else 12000000
-    rep.functions = ['engine.RepeatingEngine.run (EngineTaskController, schedule_next_instance)', 'monitor.CreateMonitor',
+    rep.functions = ['workflow.ComponentState.stageIn / _notifyProducersFinished (real rx merge/filter on an immediate scheduler)', 'engine.RepeatingEngine.run (EngineTaskController, schedule_next_instance)', 'monitor.CreateMonitor',
                      'RepeatingEngine.notify_all_producers_finished (+ kill-after callback)', 'RepeatingEngine.kill / exitReason / isAlive',
                      'Engine.canConsume', 'RepeatingEngine.nextRepeatInterval']
     rep.bounds = {'switch points (each sleep of the polling loop and each task wait)': max_switch,
@@ -334,15 +393,15 @@ def main(tier, seed, only=None):
                   'task outcomes': ['Success', 'KnownIssue', 'ResourceExhausted'], 'task duration': [1.0, 30.0],
                   'options': 'same-stage producers yes/no, check-producer-output, repeatRetries in None/0/1, kill-after delay None/12s, repeatInterval 10s',
                   'max_paths': max_paths}
-    rep.outside = ['ComponentState.stageIn rx subscription that delivers the notification (assumed: exactly once, after all producers are not alive)',
+    rep.outside = ['the rx pipeline between a producer\'s engine and its notifyFinished observable (stageIn is run on real rx Subjects standing for notifyFinished)',
                    'optimizer-chosen intervals', 'real polling jitter and threads', 'performance book-keeping']
     rep.assumptions = ['threading.Thread.start runs the monitor loop inline; time.sleep / Task.wait are the only switch points',
                        'fake clock: sleep(dt) advances dt, a task lasts 1 s or 30 s', 'reactivex.timer fires at the first switch point at or after its due time',
                        'no producer output appears after the producers-finished notification']
     rep.explanation = ('bounded symbolic execution (symx/z3) of the real RepeatingEngine.run / CreateMonitor loop as one history: the choice of the environment '
                        'choice at every switch point, task outcomes/durations and the options are solver variables')
-    rep.required_witnesses = ['monitor_loop_ended', 'final_output_rule_checked']
-    s = explore_parallel('observer-histories', factory, [{'max_switch': max_switch, 'name': 'switch-%d' % max_switch}],
+    rep.required_witnesses = ['monitor_loop_ended', 'final_output_rule_checked', 'no_live_producer_at_stagein', 'notified_after_last_producer']
+    s = explore_parallel('observer-histories', factory, [{'name': 'stage-in'}, {'max_switch': max_switch, 'name': 'switch-%d' % max_switch}],
                          signature=signature, seed=seed, chunk=300, max_paths=max_paths, validate=False)
     rep.add(s)
     return rep.finish()
